@@ -1,4 +1,5 @@
 import Batteries.Tactic.Alias
+import GenlmModel.Proofs.LmLink
 import GenlmModel.Proofs.ChainRule
 import GenlmModel.Proofs.Prio
 import GenlmModel.Proofs.IncCky
@@ -20,4 +21,9 @@ alias cky_next_token_zero_outside_vocabulary := Genlm.incCkyPNext_notin
 weight of the extended context, for the parser with its priority-queue agenda -/
 alias earley_next_token_is_extension := Genlm.earleyQ_pnext
 alias earley_next_token_is_derivation_sum := Genlm.earley_pnext_is_WN
+/-- CKY language model: normalised next-token distribution = ratio of prefix weights, sums to one, chain rule -/
+alias cky_lm_correct := Genlm.cky_lm_correct
+/-- Earley language model: the same -/
+alias earley_lm_correct := Genlm.earley_lm_correct
+alias lm_of_add_eos := Genlm.cky_lm_of_addEOS
 end Genlm.Props.C04
